@@ -134,7 +134,7 @@ def units(tier):
     # the arithmetic a forward reference goes through while its operands are still unknown: LinearPolynomial's view is preserved by every
     # operation and by the re-simplification in _wait (so the early, structural value and the final value agree whatever the order)
     for name, fn, kw in deferred_c.all_units():
-        if name.startswith("poly"):
+        if name.startswith("poly") or name in ("wait-chain", "promise"):
             us.append((name, fn, kw))
     return us
 
@@ -154,6 +154,12 @@ def replay(o, tree):
         return deferred_c.replay_poly_nested(o["cfg"], o.get("witness") or {}, tree)
     if (o.get("cfg") or {}).get("kind") == "poly-selfref":
         return deferred_c.replay_poly_selfref(o["cfg"], o.get("witness") or {}, tree)
+    if (o.get("cfg") or {}).get("kind") == "wait-chain":
+        return deferred_c.replay_wait_chain(tree)
+    if (o.get("cfg") or {}).get("kind") == "promise-pending":
+        return deferred_c.replay_promise_pending(tree)
+    if (o.get("cfg") or {}).get("kind") == "poly-scalar":
+        return deferred_c.replay_poly_scalar(o["cfg"], tree)
     if (o.get("cfg") or {}).get("kind") == "poly-mul":
         return deferred_c.replay_poly_mul(o["cfg"], o.get("witness") or {}, tree)
     old = os.environ.get("PDPY11_SRC")
